@@ -5,7 +5,7 @@
               and the PREFIX of metrics: every statement before the first one that calls compute_accuracy (the rest is
               translated by translator/wrapfuncs.py as gen_mp_metrics_assembly), closed by a synthetic
               `return (<the variables of the prefix that the rest reads, in binding order>)`
-  melody:     freq_to_voicing, to_cent_voicing
+  melody:     freq_to_voicing, to_cent_voicing, resample_melody_series, constant_hop_timebase, hz2cents
 
 This file maps syntax only (Python ast; mir_eval is never imported; anything outside the fragment raises
 TranslationError). What an operator / NumPy function does on each type of value is defined by the evaluator of
@@ -46,14 +46,17 @@ SPEC = [('multipitch', 'compute_num_freqs', 'full'),
         ('multipitch', 'resample_multipitch', 'full'),
         ('multipitch', 'metrics', ('prefix', 'compute_accuracy')),
         ('melody', 'freq_to_voicing', 'full'),
-        ('melody', 'to_cent_voicing', 'full')]
+        ('melody', 'to_cent_voicing', 'full'),
+        ('melody', 'resample_melody_series', 'full'),
+        ('melody', 'constant_hop_timebase', 'full'),
+        ('melody', 'hz2cents', 'full')]
 # opaque callees that this file does not translate (signature read from the source)
 PRIMS = [('multipitch', 'validate'), ('util', 'match_events'), ('util', '_outer_distance_mod_n'),
-         ('melody', 'hz2cents'), ('melody', 'resample_melody_series'), ('melody', 'constant_hop_timebase')]
+         ]
 # NumPy functions: arguments are emitted as written and bound in Coq (FrameExp.np_sigs). All return new objects.
-NP = {'array', 'zeros', 'arange', 'mod', 'log2', 'abs', 'allclose', 'insert', 'append'}
-NP_FRESH = {'array', 'zeros', 'arange', 'mod', 'log2', 'abs', 'insert', 'append'}
-BUILTINS = {'len': 1, 'enumerate': 1, 'zip': 2}
+NP = {'array', 'zeros', 'arange', 'mod', 'log2', 'abs', 'allclose', 'insert', 'append', 'diff', 'round', 'all', 'logical_or', 'equal', 'floor', 'linspace', 'flatnonzero'}
+NP_FRESH = {'array', 'zeros', 'arange', 'mod', 'log2', 'abs', 'insert', 'append', 'diff', 'round', 'logical_or', 'equal', 'linspace', 'flatnonzero'}
+BUILTINS = {'len': 1, 'enumerate': 1, 'zip': 2, 'int': 1}
 ATTRS = {'size', 'shape'}
 CMP = {ast.Eq: 'Eq', ast.NotEq: 'Ne', ast.Lt: 'Lt', ast.LtE: 'Le', ast.Gt: 'Gt', ast.GtE: 'Ge'}
 BIN = {ast.Add: 'Add', ast.Sub: 'Sub', ast.Mult: 'Mul', ast.Div: 'Div'}
@@ -254,7 +257,14 @@ class Fn:
             return True
         if isinstance(e, ast.Call) and isinstance(e.func, ast.Attribute) and e.func.attr == 'astype':
             return True
+        if isinstance(e, ast.Call) and isinstance(e.func, ast.Call) and self.is_interp1d(e.func.func):
+            return True                    # the array an interpolant returns
         return False
+
+    @staticmethod
+    def is_interp1d(g):
+        return isinstance(g, ast.Attribute) and g.attr == 'interp1d' and isinstance(g.value, ast.Attribute) \
+            and g.value.attr == 'interpolate' and isinstance(g.value.value, ast.Name) and g.value.value.id == 'scipy'
 
     def analyse(self):
         parent = {}
@@ -323,11 +333,13 @@ class Fn:
                         ok = True                          # x[i], x[mask]: a scalar or a copy
                     elif isinstance(p, (ast.BinOp, ast.Compare, ast.UnaryOp)):
                         ok = True
-                    elif isinstance(p, ast.Attribute) and p.value is sub and (p.attr in ATTRS or p.attr in ('astype', 'max')):
+                    elif isinstance(p, ast.Attribute) and p.value is sub and (p.attr in ATTRS or p.attr in ('astype', 'max', 'mean')):
                         ok = True
                     elif isinstance(p, ast.Call) and sub in p.args and isinstance(p.func, ast.Attribute) \
                             and isinstance(p.func.value, ast.Name) and p.func.value.id == 'np' and p.func.attr in NP_FRESH:
                         ok = True
+                    elif isinstance(p, ast.Call) and sub in p.args and self.is_interp1d(p.func):
+                        ok = True                          # interp1d copies its data (copy=True is checked by the evaluator)
                     elif isinstance(p, ast.Return) or (isinstance(p, ast.Tuple) and isinstance(parent.get(id(p)), ast.Return)):
                         ok = True                          # handed to the caller when the function ends
                     if not ok:
@@ -474,8 +486,7 @@ class Fn:
         # scipy.interpolate.interp1d(...)(x_new)
         if isinstance(f, ast.Call):
             g = f.func
-            if isinstance(g, ast.Attribute) and g.attr == 'interp1d' and isinstance(g.value, ast.Attribute) \
-                    and g.value.attr == 'interpolate' and isinstance(g.value.value, ast.Name) and g.value.value.id == 'scipy':
+            if self.is_interp1d(g) and not self.is_var('scipy'):
                 if n.keywords or len(n.args) != 1:
                     fail('the interpolant is applied to one argument', n)
                 pos, kws, _ = self.args_as_written(f)
@@ -527,10 +538,10 @@ class Fn:
                                                           and not self.is_var(n.args[0].id)):
                     fail('astype is accepted as .astype(int) / .astype(float) only', n)
                 return '(EMeth %s %s [])' % (self.ex(f.value), cstr('astype_' + n.args[0].id))
-            if f.attr == 'max':
+            if f.attr in ('max', 'mean'):
                 if n.keywords or n.args:
-                    fail('method max with arguments', n)
-                return '(EMeth %s "max" [])' % self.ex(f.value)
+                    fail('method %s with arguments' % f.attr, n)
+                return '(EMeth %s %s [])' % (self.ex(f.value), cstr(f.attr))
             fail('unsupported method %s' % f.attr, n)
         fail('unsupported call', n)
 
